@@ -84,7 +84,10 @@ def generate(rng, tier):
     for _ in range(n):
         files = gen_tree(rng)
         mode = rng.choice(["parse", "run", "run"])
-        cases.append({"files": files, "main": "main.slt", "mode": mode, "default_answer": ["rows", "I", [["1"]]], "meta": {}})
+        c = {"files": files, "main": "main.slt", "mode": mode, "default_answer": ["rows", "I", [["1"]]], "meta": {}}
+        if rng.random() < 0.2:
+            c["bare"] = True          # the script named by a bare file name, the tree's root being the working directory
+        cases.append(c)
     return cases
 
 
